@@ -92,7 +92,7 @@ META['C01'] = {
 JOBS['C01'] = [
     {'name': 'roundtrip_bytes', 'harness': 'c01_rt.c', 'units': ['lbuf', 'sbuf', 'uc'],
      'defs': {'quick': {'MODE': 0, 'N': 4}, 'thorough': {'MODE': 0, 'N': 6}}, 'expect_reach': ['end', 'whole']},
-    {'name': 'boundary_lengths', 'harness': 'c01_rt.c', 'units': ['lbuf', 'sbuf', 'uc'],
+    {'name': 'boundary_lengths', 'harness': 'c01_rt.c', 'units': ['lbuf', 'sbuf', 'uc'], 'heavy': True,
      'defs': {'quick': {'MODE': 1, 'NL': 2, 'RANGE': 0}, 'thorough': {'MODE': 1, 'NL': 3, 'RANGE': 1}}, 'expect_reach': ['end', 'whole'],
      'timeout': {'quick': 280, 'thorough': 1700}},
     {'name': 'line_table_growth', 'harness': 'c01_rt.c', 'units': ['lbuf', 'sbuf', 'uc'],
